@@ -139,6 +139,29 @@ P = {
        "histories interleaved with queries and round trips, wire filters with empty data.",
   note=TB + "Partial: the exact size for (nElements, nFPRate) is not claimed (floating point).",
   tech="Lean 4 proof (UInt32 wrap-around = masked Nat arithmetic; monotone-bits invariant over histories) + tables + correspondence"),
+ 'C13': dict(
+  text="Proof for what python-bitcoinlib itself computes (the glue), partial overall. Lean theorems: strict-DER "
+       "encode/decode round trip and strictness (der_roundtrip, der_strict), CompareBigEndian = sign of the integer "
+       "difference, IsLowDERSignature ⇔ 0 < s ≤ n/2 on strict DER with no IndexError (isLowDer_iff), low-S "
+       "normalisation spec (∈ {s, n−s}, low, idempotent), CECKey.sign = strict DER of (r, lowS s), WIF payload layout "
+       "and round trip under every chain's version byte, curve-constant kernel checks (G on curve, n·G = ∞), abstract "
+       "ECDSA over any prime-order group (verify_sign, verify_lowS_twin). PARTIAL: the elliptic-curve arithmetic runs "
+       "inside OpenSSL; k·G, ECDSA_sign/verify, point validation are tied only by the correspondence run against the "
+       "independent Lean secp256k1 (secrets 1,2,n−1,n−2,…; verification matrix incl. twins, 0, n; on/off-curve, "
+       "hybrid keys; four chains). T1: chain version bytes.",
+  note=TB + "Not proved: that the Lean secp256k1 formulas form a group of order n; OpenSSL behaviour; random nonces. These are covered by T2 only.",
+  tech="Lean 4 proof of the glue (DER, low-S, WIF, header bytes) + abstract ECDSA algebra + correspondence against a Lean reference curve"),
+ 'C14': dict(
+  text="Proof for the glue, partial overall. Lean theorems: message digest = SHA-256d of varint-prefixed magic ‖ "
+       "varint-prefixed UTF-8 message for any length (msg_digest_eq_spec), header byte 27+recid+4·compressed and its "
+       "inverse (header_roundtrip), sign_compact layout (r‖s 32-byte big-endian, recid < 4), VerifyMessage's decision "
+       "(true only for the address of the recovered key and the same message), abstract recovery algebra "
+       "(recover_correct). UNPROVED (kept at full strength in Props/C14.lean): recover_eq_reference (the Python "
+       "recovery code = SEC1 §4.1.6). PARTIAL: OpenSSL arithmetic is tied only by the run: Lean recovery reproduces "
+       "the signer's key, VerifyMessage true for the signer's P2PKH address, false for other keys, other address "
+       "types with the same hash160, and perturbed messages.",
+  note=TB + "OpenSSL (BN_*, EC_POINT_*) inside recover is covered by T2 only.",
+  tech="Lean 4 proof of the glue (digest layout, header byte, decision logic) + abstract recovery algebra + correspondence against a Lean reference curve"),
 }
 
 REASON_PENDING = "check under construction in this build round (model/theorems not yet merged); see DESIGN.md §10/§11"
